@@ -12,6 +12,9 @@ C03-d  a division whose divisor is read from the file (zck_get_* result) has a d
 C03-e  string-table lookups by a file-supplied code are bounded above (codes are non-negative ints, C03-f).
 C03-f  the integer decoder the parsers rely on: bounded reads, no wrap on accepting paths, values above INT_MAX
        rejected before narrowing (the interval interpretation of C20-a..c, reported here as well).
+C03-h  a (buffer, length) pair of a context never records more bytes than the block allocated on the same path
+       holds (header/header_size, mp->buffer/buffer_len, comp.data/data_size, dc_data/dc_data_size,
+       index_string/index_size): linear values plus the comparison facts of the path; contradictory paths skipped.
 Declined: memory safety as a whole, absence of hangs, safety of zstd/OpenSSL.
 """
 from ..flow import M1, NEG, Z, P1, POS, POSITIVE, TOP, NONNEG, mask_str, Engine, Rule
@@ -340,6 +343,9 @@ def run(ctx):
         nk = extra.check_nullable_key(ck, prog, config, 'C03-g')
         ck.min_instances('uses of the conditionally allocated uncompressed digest', nk, 2)
         extra.check_own_then_free(ck, prog, config, 'C03-g')
+        # ---- h  a recorded buffer length never exceeds the block it describes
+        from ..rules import sizepair
+        sizepair.check_size_pairs(ck, prog, config, 'C03-h', min_exits=10)
         # ---- f  the integer decoder every parser relies on (same analysis as C20-a..c)
         from . import c20
         c20.decoder(ck, prog, config, ca='C03-f', cb='C03-f', cc='C03-f', cd='C03-f')
@@ -406,6 +412,42 @@ CLAIM = {
 }
 
 MUTANTS = [
+    {'id': 'm03s', 'desc': 'read_lead shrinks the read-ahead buffer again (pre-fix form)', 'file': 'src/lib/header.c',
+     'old': """    if(lead < length + zck->hash_type.digest_size) {
+        header = zrealloc(header, length + zck->hash_type.digest_size);
+        if (!header) {
+            zck_log(ZCK_LOG_ERROR, "OOM in %s", __func__);
+            return false;
+        }
+        to_read = length + zck->hash_type.digest_size - lead;
+    }""", 'new': """    header = zrealloc(header, length + zck->hash_type.digest_size);
+    if (!header) {
+        zck_log(ZCK_LOG_ERROR, "OOM in %s", __func__);
+        return false;
+    }
+    if(lead < length + zck->hash_type.digest_size)
+        to_read = length + zck->hash_type.digest_size - lead;""", 'expect': 'R4.size-pair read_lead'},
+    {'id': 'n03s', 'desc': 'grow-only realloc written with two separate tests (infeasible mixed path)',
+     'file': 'src/lib/header.c',
+     'old': """    if(lead < length + zck->hash_type.digest_size) {
+        header = zrealloc(header, length + zck->hash_type.digest_size);
+        if (!header) {
+            zck_log(ZCK_LOG_ERROR, "OOM in %s", __func__);
+            return false;
+        }
+        to_read = length + zck->hash_type.digest_size - lead;
+    }""", 'new': """    if(length + zck->hash_type.digest_size > lead) {
+        header = zrealloc(header, length + zck->hash_type.digest_size);
+        if (!header) {
+            zck_log(ZCK_LOG_ERROR, "OOM in %s", __func__);
+            return false;
+        }
+    }
+    if(lead < length + zck->hash_type.digest_size)
+        to_read = length + zck->hash_type.digest_size - lead;""", 'expect': None},
+    {'id': 'm03t', 'desc': 'multipart carry-over records more than it allocated', 'file': 'src/lib/dl/multipart.c',
+     'old': '                mp->buffer_len = size;', 'new': '                mp->buffer_len = l;',
+     'expect': 'R4.size-pair multipart_extract'},
     {'id': 'm52', 'desc': 'second digest bound check removed', 'file': 'src/lib/index/index_read.c',
      'old': """            if(length + zck->index.digest_size > max_length) {
                 set_fatal_error(zck, "Read past end of header");
